@@ -64,7 +64,7 @@ def integer(ctx, world, ev):
     outs = ev.run_method(g, "password_to_scalar", [pw], st=st.fork())
     rets = session.rets(outs)
     ctx.require(rets, "%s.password_to_scalar has no returning path" % gname)
-    ssz = f.get("scalar_size_bytes")
+    ssz = gm.attr_of(ev, g, "scalar_size_bytes", st)
     ctx.ob("H3", gname + " scalar size", ssz in width_forms(q), "scalar_size_bytes = size_bytes(q)" if ssz in width_forms(q) else
            "scalar_size_bytes is %s" % show(ssz, maxdepth=5))
     for o in rets:
@@ -82,7 +82,7 @@ def integer(ctx, world, ev):
     outs = ev.run_method(g, "arbitrary_element", [seed], st=st.fork())
     rets = session.rets(outs)
     ctx.require(rets, "%s.arbitrary_element has no returning path" % gname)
-    esz = f.get("element_size_bytes")
+    esz = gm.attr_of(ev, g, "element_size_bytes", st)
     for o in rets:
         ctx.require(isinstance(o.value, Obj), "arbitrary_element does not return an element object")
         vals = [v for v in o.state.heap[o.value.oid].values() if v != g]
